@@ -552,7 +552,13 @@ fn matches(e: &Expect, o: &Obs) -> bool {
 }
 
 /// Name the way a history-built zone deviates (the known-finding classes).
-fn history_class(z: &Flat, q: &Rel, e: &Expect, o: &Obs) -> &'static str {
+/// No delegation / alias record (NS or DS below the apex, CNAME) anywhere in the operations.
+fn is_plain(case: &str) -> bool {
+    !case.split(' ').take_while(|w| *w != "?").any(|w| { let f: Vec<&str> = w.split(':').collect();
+        f.len() >= 4 && f[1] != "@" && (f[2] == "2" || f[2] == "5" || f[2] == "43") })
+}
+
+fn history_class(z: &Flat, q: &Rel, e: &Expect, o: &Obs, plain: bool) -> &'static str {
     // the answer carries a record that is no longer in the zone: a delegation / alias that the builder
     // stored in the node's `Special` cannot be deleted through RRset-level updates
     let all: BTreeSet<String> = z.records().iter().map(|r| format!("{}/{}/{}", r.rtype, r.ttl, r.rd.show())).collect();
@@ -562,6 +568,11 @@ fn history_class(z: &Flat, q: &Rel, e: &Expect, o: &Obs) -> &'static str {
     // a delegation / alias is due, but the NS / CNAME records were stored as plain RRsets
     if e.what == "referral" || e.what.starts_with("cut_ds") { return "updater_ns_not_cut"; }
     if e.what == "cname" || e.what == "wild_cname" { return "updater_cname_not_special"; }
+    // A delegation / alias that survived its deletion keeps its name (and the names above it) alive,
+    // which shows as a shadowed wildcard or as NODATA for a name that is gone.  With such records in
+    // the history every remaining deviation is attributed to that duality; the node-bookkeeping
+    // classes below are reserved for histories without any delegation / alias record.
+    if !plain { return "special_survives_delete"; }
     if o.rcode == 3 && e.rcode != 3 {
         if e.what.starts_with("wild_") { return "deleted_name_shadows_wildcard"; }
         if e.what == "ent_nodata" && !z.owns(q) { return "updater_ent_nxdomain"; }
@@ -801,8 +812,7 @@ fn gen_write_history(r: &mut Rng, start: &Flat, target: &Flat) -> (Vec<Op>, Flat
 
 struct Ctx { out: Out, rt: tokio::runtime::Runtime, seen: BTreeMap<String, u32> }
 
-const KNOWN: [&str; 7] = ["updater_descendant_nxdomain", "updater_ent_nxdomain", "deleted_name_shadows_wildcard", "updater_ns_not_cut",
-    "updater_cname_not_special", "special_survives_delete", "stale_node_nodata"];
+const KNOWN: [&str; 3] = ["updater_ns_not_cut", "updater_cname_not_special", "special_survives_delete"];
 
 impl Ctx {
     /// Oracle verdict.  The shared collector keeps the first 200 failure lines only, so failures of the
@@ -812,8 +822,7 @@ impl Ctx {
         if !ok && KNOWN.contains(&class) {
             // "plain": no delegation / alias record anywhere in the history, so the failure is not a
             // consequence of the Special-vs-RRset duality (K3) but of node bookkeeping alone
-            let plain = !case.split(' ').any(|w| { let f: Vec<&str> = w.split(':').collect();
-                f.len() >= 4 && f[1] != "@" && (f[2] == "2" || f[2] == "5" || f[2] == "43") && f[0] != "?" });
+            let plain = is_plain(case);
             if plain { self.out.count(&format!("known_class_plain/{}", class)); }
             let n = self.seen.entry(class.to_string()).or_insert(0);
             *n += 1;
@@ -841,6 +850,7 @@ impl Ctx {
             }
         };
         let history = ops.iter().any(|o| o.is_history());
+        let plain = is_plain(&ops_s);
         for (q, t) in queries {
             let case = format!("{} ? {} {}", ops_s, q.show(), t);
             let zone = built.zone.clone();
@@ -857,7 +867,7 @@ impl Ctx {
                 let e = spec(z, q, *t);
                 self.out.count(&format!("spec/{}", e.what));
                 let ok = matches(&e, &obs);
-                let class = if ok { "ok".to_string() } else if history { history_class(z, q, &e, &obs).to_string() } else { format!("spec_{}", e.what) };
+                let class = if ok { "ok".to_string() } else if history { history_class(z, q, &e, &obs, plain).to_string() } else { format!("spec_{}", e.what) };
                 self.verdict(ok, &class, &case, &format!("expected {} rcode={} aa={} AN={} AU={} AD={}; got {}",
                     e.what, e.rcode, e.aa as u8, e.answers.iter().map(set_show).collect::<Vec<_>>().join("|"), set_show(&e.authority), set_show(&e.additional), obs.line(&[], 0)));
                 if ok { self.out.check(obs.dup_free(), "duplicate_records_in_answer", &case, &obs.line(&[], 0)); }
@@ -868,7 +878,7 @@ impl Ctx {
                     if let Ok(ro) = catch_mut(move || observe(&rzc, &qq, tt, false)) {
                         let same = if *t == T_ANY && ro.kind() == "data" && obs.kind() == "data" { ro.authority == obs.authority && ro.additional == obs.additional }
                                    else { ro.rcode == obs.rcode && ro.aa == obs.aa && ro.answer == obs.answer && ro.authority == obs.authority && ro.additional == obs.additional };
-                        let class = if same { "ok".to_string() } else { let c = history_class(z, q, &e, &obs); if c == "history_dependent_other" { "differs_from_rebuilt".to_string() } else { c.to_string() } };
+                        let class = if same { "ok".to_string() } else { let c = history_class(z, q, &e, &obs, plain); if c == "history_dependent_other" { "differs_from_rebuilt".to_string() } else { c.to_string() } };
                         self.verdict(same, &class, &case, &format!("rebuilt zone answers {}; history zone answers {}", ro.line(&[], 0), obs.line(&[], 0)));
                     }
                 }
